@@ -286,6 +286,17 @@ Proof.
   rewrite H. reflexivity.
 Qed.
 
+Lemma cache_loss_leaves_no_open_lane ca e :
+  openStatesForFinish (resetAfterRestore ca) e = []
+  /\ openStatesForFinish (pauseForRestore ca) e = []
+  /\ openStatesForFinish (resumeAfterRestore ca) e = []
+  /\ (forall hash_slot_of lost, existsb (N.eqb (hash_slot_of (e_channel e))) lost = true ->
+        openStatesForFinish (removeHashSlotsObserved ca hash_slot_of lost) e = []).
+Proof.
+  split; [apply open_states_after_reset|]. split; [apply open_states_after_pause|].
+  split; [apply open_states_after_resume|]. intros. apply open_states_after_authority_loss. assumption.
+Qed.
+
 (* when it does not fail closed (and the flush payloads can be built), the finish
    issues exactly one proposal: one flush close per open cached lane, in lane
    order, followed by the finish itself *)
@@ -511,3 +522,13 @@ Proof.
   intros C K Hk Tr. unfold reduceMessageEventAppend. unfold reduce_noop_cond in C. rewrite C, K.
   destruct Hk as [-> | [-> | ->]]; rewrite Tr; reflexivity.
 Qed.
+
+(* ---- the statements of Properties/C40.v about whole cases ------------------------------------------------ *)
+
+Lemma meta_model_satisfies_monitor_empty ops ks : C40_monitor (C40Meta (meta_trace ks db_empty ops)) = 0.
+Proof. exact (meta_model_satisfies_monitor ops ks db_empty). Qed.
+
+Lemma node_model_satisfies_monitor ops ks max_sessions chan_hs hs_count :
+  C40_monitor (C40Node max_sessions hs_count chan_hs (node_trace ks (node_init max_sessions chan_hs hs_count) ops))
+  = node_clauses ks (node_init max_sessions chan_hs hs_count) [] ops.
+Proof. exact (node_model_durable ops ks (node_init max_sessions chan_hs hs_count) []). Qed.
